@@ -265,7 +265,7 @@ class Ctx:
         res['reproduced'] = any(v.get('reproduced') for v in res['profiles'].values())
         return res
 
-    def report(self, role, text, model_desc, test_body, uses='', profiles=('dev', 'release'), inject_into='src/lib.rs', role_from_output=False, hang_is_violation=False):
+    def report(self, role, text, model_desc, test_body, uses='', profiles=('dev', 'release'), inject_into='src/lib.rs', role_from_output=False, hang_is_violation=False, panic_is_violation=False):
         """A solver counterexample: replay natively, then classify as known finding / violation / encoding disagreement.
         With role_from_output the native test itself names the role (`VERIF-REPLAY-VIOLATION <role>`)."""
         for v in self.violations:
@@ -276,6 +276,9 @@ class Ctx:
         if hang_is_violation and any(v.get('timeout') for v in rp['profiles'].values()):
             rp['reproduced'] = True
             rp['hang'] = True
+        if panic_is_violation and any(('panicked at' in v.get('tail', '') and 'VERIF-REPLAY-OK' not in v.get('tail', '')) for v in rp['profiles'].values()):
+            rp['reproduced'] = True
+            rp['panicked'] = True
         if role_from_output and rp['reproduced']:
             for prof in rp['profiles'].values():
                 mm = re.search(r'VERIF-REPLAY-VIOLATION (\S+)', prof.get('tail', ''))
